@@ -431,3 +431,30 @@ func recvName(fn *ssa.Function) string {
 	}
 	return ""
 }
+
+// isParamValue: v is parameter p of its function, or a load of the cell p was spilled to
+// (go/ssa spills parameters captured by closures to `new T (p)`).
+func isParamValue(v ssa.Value, p *ssa.Parameter) bool {
+	if v == ssa.Value(p) {
+		return true
+	}
+	u, ok := v.(*ssa.UnOp)
+	if !ok || u.Op != token.MUL {
+		return false
+	}
+	a, ok := u.X.(*ssa.Alloc)
+	if !ok {
+		return false
+	}
+	n := 0
+	okStore := false
+	for _, ref := range *a.Referrers() {
+		if st, ok := ref.(*ssa.Store); ok && st.Addr == a {
+			n++
+			if st.Val == ssa.Value(p) {
+				okStore = true
+			}
+		}
+	}
+	return n == 1 && okStore
+}
